@@ -19,6 +19,8 @@ func main() {
 	r.Register("m", func(a []string) string { return pgen.FrameAPI() })
 	// pp FAM MS tok..: Parse fed back to back while a ping is pending (pingunit.go)
 	r.Register("pp", func(a []string) string { o, _ := runPing(a); return o })
+	// gate SEND hex..: Parse while a send of that kind is held inside Conn.WriteTo (gateunit.go)
+	r.Register("gate", func(a []string) string { o, _ := runGate(a); return o })
 	if r.Replayed() {
 		return
 	}
@@ -60,6 +62,8 @@ func main() {
 			r.Stat("cap.exact", 1)
 		}
 	})
-	// last: a violation here can leave the process-global waiter table locked
-	pingUnit(r)
+	// last: a violation in these two units can leave a process-global or session lock held for good
+	if !gateUnit(r) {
+		pingUnit(r)
+	}
 }
